@@ -82,7 +82,7 @@ theorem args_exact (cs : List CallT) (o : Occ) : o ∈ expand cs ↔ ∃ c, Sub 
     (3) contains an identical representative of every expanded invocation;
     (4) first occurrence: an invocation is skipped iff an identical one occurs earlier in the expansion
         (equivalently: has already been executed), and what ran before is unaffected by what follows. -/
-theorem dedupe_first_occurrence (sig : Nat → List Param) (l : List Occ) :
+theorem dedupe_first_occurrence (sig : Nat → Sig) (l : List Occ) :
     (dedupe sig l).Sublist l ∧
     (dedupe sig l).Pairwise (fun a b => callEq sig a b = false) ∧
     (∀ c ∈ l, ∃ d ∈ dedupe sig l, callEq sig d c = true) ∧
@@ -102,7 +102,7 @@ theorem dedupe_first_occurrence (sig : Nat → List Param) (l : List Occ) :
 
 /-- the same for "already executed": the next invocation is skipped iff it is identical to one that
     has been executed (this form holds for any comparison, also a non-transitive one) -/
-theorem dedupe_skips_iff_executed (sig : Nat → List Param) (l₁ : List Occ) (c : Occ) :
+theorem dedupe_skips_iff_executed (sig : Nat → Sig) (l₁ : List Occ) (c : Occ) :
     dedupe sig (l₁ ++ [c]) =
       if isSeen (callEq sig) c (dedupe sig l₁) then dedupe sig l₁ else dedupe sig l₁ ++ [c] := by
   unfold dedupe dedupeBy
@@ -113,12 +113,12 @@ theorem dedupe_skips_iff_executed (sig : Nat → List Param) (l₁ : List Occ) (
   split <;> simp
 
 /-- with deduplication off nothing is skipped -/
-theorem nodedupe_runs_all (sig : Nat → List Param) (dflt : Option TaskT) (req : List (TaskT × KW)) :
+theorem nodedupe_runs_all (sig : Nat → Sig) (dflt : Option TaskT) (req : List (TaskT × KW)) :
     (execute sig false dflt req).1 = expand (normalize dflt req) := by
   simp [execute, runLog]
 
 /-- with deduplication on, what runs is the deduplicated expansion of the normalised request -/
-theorem dedupe_runs (sig : Nat → List Param) (dflt : Option TaskT) (req : List (TaskT × KW)) :
+theorem dedupe_runs (sig : Nat → Sig) (dflt : Option TaskT) (req : List (TaskT × KW)) :
     (execute sig true dflt req).1 = dedupe sig (expand (normalize dflt req)) := by
   simp [execute, runLog]
 
@@ -134,7 +134,7 @@ theorem normalize_request (dflt : Option TaskT) (r : TaskT × KW) (rs : List (Ta
 /-- HEADLINE (results).  The returned mapping has an entry for task (dictionary key) `t` iff `t` was executed, and the
     entry is the return value of the LAST execution of `t`: `j` is stored iff the `j`-th executed call
     is a call of `t` and no later one is. -/
-theorem results_last (sig : Nat → List Param) (dd : Bool) (dflt : Option TaskT) (req : List (TaskT × KW)) (t j : Nat) :
+theorem results_last (sig : Nat → Sig) (dd : Bool) (dflt : Option TaskT) (req : List (TaskT × KW)) (t j : Nat) :
     lookupKV t (execute sig dd dflt req).2 = some j ↔
       (((execute sig dd dflt req).1)[j]?).map Occ.key = some t ∧
       ∀ k, j < k → (((execute sig dd dflt req).1)[k]?).map Occ.key ≠ some t := by
@@ -161,7 +161,7 @@ theorem results_last (sig : Nat → List Param) (dd : Bool) (dflt : Option TaskT
       exact hn x (List.mem_of_getElem? ho) hj
 
 /-- a task that was never executed has no entry -/
-theorem results_only_executed (sig : Nat → List Param) (dd : Bool) (dflt : Option TaskT) (req : List (TaskT × KW)) (t : Nat) :
+theorem results_only_executed (sig : Nat → Sig) (dd : Bool) (dflt : Option TaskT) (req : List (TaskT × KW)) (t : Nat) :
     lookupKV t (execute sig dd dflt req).2 = none ↔ ∀ o ∈ (execute sig dd dflt req).1, o.key ≠ t := by
   simp only [execute]
   rw [lookupKV_runResults]
@@ -185,7 +185,7 @@ theorem results_only_executed (sig : Nat → List Param) (dd : Bool) (dflt : Opt
         keyword names a parameter not already filled).  A call that cannot be bound has no effective
         arguments — executing it raises `TypeError` — and the code then compares it literally.
     The former "same spelling" hypothesis is gone (DESIGN §4 #22/#30 repaired). -/
-theorem effective_args_dedupe (sig : Nat → List Param) (l : List Occ)
+theorem effective_args_dedupe (sig : Nat → Sig) (l : List Occ)
     (hcls : ∀ c ∈ l, ∀ d ∈ l, (c.cls = d.cls ↔ c.id = d.id))
     (hwc : ∀ c ∈ l, wellCalled (sig c.id) c.args = true) :
     dedupe sig l = dedupeBy (effEq sig) l := by
@@ -200,17 +200,17 @@ theorem effective_args_dedupe (sig : Nat → List Param) (l : List Occ)
 
 /-- consequence in the property's words: with dedupe on, an invocation of the same task with the same
     effective arguments as an earlier one in the list is skipped, every other one is kept -/
-theorem effective_args_skipped (sig : Nat → List Param) (l₁ : List Occ) (c : Occ)
+theorem effective_args_skipped (sig : Nat → Sig) (l₁ : List Occ) (c : Occ)
     (hcls : ∀ a ∈ l₁ ++ [c], ∀ d ∈ l₁ ++ [c], (a.cls = d.cls ↔ a.id = d.id))
     (hwc : ∀ a ∈ l₁ ++ [c], wellCalled (sig a.id) a.args = true) :
     dedupe sig (l₁ ++ [c]) =
-      if l₁.any (fun d => d.id == c.id && bind (sig d.id) d.args == bind (sig c.id) c.args)
+      if l₁.any (fun d => d.id == c.id && boundEq (bindS (sig d.id) d.args) (bindS (sig c.id) c.args))
       then dedupe sig l₁ else dedupe sig l₁ ++ [c] := by
   rw [(dedupe_first_occurrence sig (l₁ ++ [c])).2.2.2 l₁ c]
   have : isSeen (callEq sig) c l₁ =
-      l₁.any (fun d => d.id == c.id && bind (sig d.id) d.args == bind (sig c.id) c.args) := by
+      l₁.any (fun d => d.id == c.id && boundEq (bindS (sig d.id) d.args) (bindS (sig c.id) c.args)) := by
     have key : ∀ d ∈ l₁, eqvTo (callEq sig) c d =
-        (d.id == c.id && bind (sig d.id) d.args == bind (sig c.id) c.args) := by
+        (d.id == c.id && boundEq (bindS (sig d.id) d.args) (bindS (sig c.id) c.args)) := by
       intro d hd
       have hd' : d ∈ l₁ ++ [c] := List.mem_append_left _ hd
       have hc' : c ∈ l₁ ++ [c] := by simp
@@ -227,6 +227,41 @@ theorem effective_args_skipped (sig : Nat → List Param) (l₁ : List Occ) (c :
     · rintro ⟨d, hd, h⟩; exact ⟨d, hd, by rw [key d hd]; exact h⟩
   rw [this]
 
+/-- dedupe never merges invocations of DISTINCT tasks: an invocation whose task differs (`Task.__eq__`)
+    from the task of every earlier invocation is kept, whatever the arguments (namesakes in different
+    sub-collections with different bodies both run) -/
+theorem dedupe_keeps_distinct_tasks (sig : Nat → Sig) (l₁ : List Occ) (c : Occ)
+    (h : ∀ d ∈ l₁, d.cls ≠ c.cls) :
+    dedupe sig (l₁ ++ [c]) = dedupe sig l₁ ++ [c] := by
+  rw [(dedupe_first_occurrence sig (l₁ ++ [c])).2.2.2 l₁ c]
+  have : isSeen (callEq sig) c l₁ = false := by
+    rw [Bool.eq_false_iff]
+    intro hs
+    obtain ⟨d, hd, hdc⟩ := (isSeen_iff (callEq sig) c l₁).1 hs
+    exact h d hd ((callEq_iff sig d c).1 hdc).1
+  simp [this]
+
+/-- … and invocations that differ in ANY effective argument (a named parameter, a later extra positional
+    of `*rest`, a keyword-only value, an entry of `**kw`) from every earlier one are kept -/
+theorem dedupe_keeps_different_arguments (sig : Nat → Sig) (l₁ : List Occ) (c : Occ)
+    (h : ∀ d ∈ l₁, effArgsEq (effArgs (sig d.id) d.args) (effArgs (sig c.id) c.args) = false) :
+    dedupe sig (l₁ ++ [c]) = dedupe sig l₁ ++ [c] := by
+  rw [(dedupe_first_occurrence sig (l₁ ++ [c])).2.2.2 l₁ c]
+  have : isSeen (callEq sig) c l₁ = false := by
+    rw [Bool.eq_false_iff]
+    intro hs
+    obtain ⟨d, hd, hdc⟩ := (isSeen_iff (callEq sig) c l₁).1 hs
+    have := ((callEq_iff sig d c).1 hdc).2
+    rw [h d hd] at this
+    cases this
+  simp [this]
+
+/-- bound arguments differ as soon as the extra positionals, a slot or the extra keywords differ -/
+theorem boundEq_false_of_extraPos (a b : Bound) (h : a.extraPos ≠ b.extraPos) : boundEq a b = false := by
+  rw [Bool.eq_false_iff]
+  intro hb
+  exact h ((boundEq_iff a b).1 hb).2.1
+
 /-! ### the rule before the repair, and what is still open -/
 
 /-- the pre-repair `Call.__eq__` (literal args/kwargs) agreed with "same effective arguments" only when
@@ -235,12 +270,12 @@ theorem effective_args_dedupe_pinned_partial (sig : Nat → List Param) (l : Lis
     (hcls : ∀ c ∈ l, ∀ d ∈ l, (c.cls = d.cls ↔ c.id = d.id))
     (hwc : ∀ c ∈ l, WellCalled (sig c.id) c.args)
     (hsp : ∀ c ∈ l, ∀ d ∈ l, c.id = d.id → sameSpelling c d = true) :
-    dedupePinned l = dedupeBy (effEq sig) l := by
+    dedupePinned l = dedupeBy (effEqPlain sig) l := by
   apply dedupeFrom_congr
   intro c hc d hd
   simp only [List.nil_append] at hc hd
   rw [Bool.eq_iff_iff, callEqPinned_iff]
-  simp only [effEq, Bool.and_eq_true, beq_iff_eq]
+  simp only [effEqPlain, Bool.and_eq_true, beq_iff_eq]
   constructor
   · rintro ⟨h1, h2, h3⟩
     have hid := (hcls c hc d hd).1 h1
@@ -256,7 +291,7 @@ theorem effective_args_dedupe_pinned_partial (sig : Nat → List Param) (l : Lis
     (`{x: 1}`, as the CLI parser does) and once as a plain pre-task reference (`{}`): both ran; the
     code as it is now runs it once; likewise positional vs keyword (#30) -/
 theorem effective_args_dedupe_counterexample :
-    let sig : Nat → List Param := fun _ => [⟨['x'], some (.int 1)⟩]
+    let sig : Nat → Sig := fun _ => .plain [⟨['x'], some (.int 1)⟩]
     let l : List Occ := [⟨0, 0, 0, ⟨[], [(['x'], .int 1)]⟩⟩, ⟨0, 0, 0, ⟨[], []⟩⟩, ⟨0, 0, 0, ⟨[.int 1], []⟩⟩]
     dedupePinned l = l ∧ dedupeBy (effEq sig) l = [⟨0, 0, 0, ⟨[], [(['x'], .int 1)]⟩⟩] ∧
     dedupe sig l = [⟨0, 0, 0, ⟨[], [(['x'], .int 1)]⟩⟩] := by decide
@@ -266,7 +301,7 @@ theorem effective_args_dedupe_counterexample :
     sub-collections): the second is skipped. -/
 theorem task_identity_dedupe_counterexample :
     let l : List Occ := [⟨0, 0, 7, noArgs⟩, ⟨1, 1, 7, noArgs⟩]
-    dedupe (fun _ => []) l = [⟨0, 0, 7, noArgs⟩] ∧ dedupeBy (effEq (fun _ => [])) l = l := by decide
+    dedupe (fun _ => .plain []) l = [⟨0, 0, 7, noArgs⟩] ∧ dedupeBy (effEq (fun _ => .plain [])) l = l := by decide
 
 /-! ### non-vacuity -/
 
@@ -276,31 +311,51 @@ def exSetup : TaskT := .mk 1 1 1 [] [(exNotify, noArgs)]
 def exClean : TaskT := .mk 3 3 3 [] []
 def exBuild : TaskT := .mk 2 2 2 [(exSetup, noArgs), (exClean, ⟨[], [(['x'], .int 1)]⟩)] [(exNotify, noArgs)]
 
-example : (execute (fun _ => []) false none [(exBuild, []), (exSetup, [])]).1.map Occ.id = [1, 0, 3, 2, 0, 1, 0] := by decide
-example : (execute (fun _ => []) true none [(exBuild, []), (exSetup, [])]).1.map Occ.id = [1, 0, 3, 2] := by decide
-example : (execute (fun _ => []) true none [(exBuild, []), (exSetup, [])]).2 = [(1, 0), (0, 1), (3, 2), (2, 3)] := by decide
-example : (execute (fun _ => []) false none [(exBuild, []), (exSetup, [])]).2 = [(1, 5), (0, 6), (3, 2), (2, 3)] := by decide
-example : (execute (fun _ => []) true (some exSetup) []).1.map Occ.id = [1, 0] := by decide
+example : (execute (fun _ => .plain []) false none [(exBuild, []), (exSetup, [])]).1.map Occ.id = [1, 0, 3, 2, 0, 1, 0] := by decide
+example : (execute (fun _ => .plain []) true none [(exBuild, []), (exSetup, [])]).1.map Occ.id = [1, 0, 3, 2] := by decide
+example : (execute (fun _ => .plain []) true none [(exBuild, []), (exSetup, [])]).2 = [(1, 0), (0, 1), (3, 2), (2, 3)] := by decide
+example : (execute (fun _ => .plain []) false none [(exBuild, []), (exSetup, [])]).2 = [(1, 5), (0, 6), (3, 2), (2, 3)] := by decide
+example : (execute (fun _ => .plain []) true (some exSetup) []).1.map Occ.id = [1, 0] := by decide
 /-- two `Task` objects wrapping ONE body function under one name (same `key`, same `cls`) with different
     pre-tasks: each occurrence is surrounded by its OWN pre-tasks (dedupe off: everything runs; dedupe on:
     the second `build` is taken for the first - known finding - but its own pre-task still runs), and the
     returned mapping has a single entry for the shared key -/
 def exWebBuild : TaskT := .mk 10 10 10 [(.mk 11 11 11 [] [], noArgs)] []
 def exApiBuild : TaskT := .mk 20 10 10 [(.mk 21 21 21 [] [], noArgs)] []
-example : (execute (fun _ => []) false none [(exWebBuild, []), (exApiBuild, [])]).1.map Occ.id = [11, 10, 21, 20] := by decide
-example : (execute (fun _ => []) true none [(exWebBuild, []), (exApiBuild, [])]).1.map Occ.id = [11, 10, 21] := by decide
-example : (execute (fun _ => []) false none [(exWebBuild, []), (exApiBuild, [])]).2 = [(11, 0), (10, 3), (21, 2)] := by decide
+example : (execute (fun _ => .plain []) false none [(exWebBuild, []), (exApiBuild, [])]).1.map Occ.id = [11, 10, 21, 20] := by decide
+example : (execute (fun _ => .plain []) true none [(exWebBuild, []), (exApiBuild, [])]).1.map Occ.id = [11, 10, 21] := by decide
+example : (execute (fun _ => .plain []) false none [(exWebBuild, []), (exApiBuild, [])]).2 = [(11, 0), (10, 3), (21, 2)] := by decide
 /-- a nested occurrence (`notify` below `setup` below `build`) satisfies `Sub` -/
 example : Sub (exNotify, noArgs) [(exBuild, noArgs)] :=
   Sub.inPre (d := (exBuild, noArgs)) (by simp) (Sub.inPost (d := (exSetup, noArgs)) (by simp [exBuild, TaskT.pre]) (Sub.here (by simp [exSetup, TaskT.post])))
 /-- effective arguments: keyword order, an explicit default and positional-vs-keyword make no difference,
     the values do; a call that cannot be bound is compared literally -/
-def exSig : Nat → List Param := fun _ => [⟨['x'], some (.int 1)⟩, ⟨['y'], some (.int 2)⟩]
+def exSig : Nat → Sig := fun _ => .plain [⟨['x'], some (.int 1)⟩, ⟨['y'], some (.int 2)⟩]
 example : callEq exSig ⟨0, 0, 0, ⟨[], [(['x'], .int 1), (['y'], .int 2)]⟩⟩ ⟨0, 0, 0, ⟨[], [(['y'], .int 2), (['x'], .int 1)]⟩⟩ = true := by decide
 example : callEq exSig ⟨0, 0, 0, ⟨[], []⟩⟩ ⟨0, 0, 0, ⟨[.int 1], [(['y'], .int 2)]⟩⟩ = true := by decide
 example : callEq exSig ⟨0, 0, 0, ⟨[], [(['x'], .int 1)]⟩⟩ ⟨0, 0, 0, ⟨[], [(['x'], .int 2)]⟩⟩ = false := by decide
 example : callEq exSig ⟨0, 0, 0, ⟨[], [(['z'], .int 1)]⟩⟩ ⟨0, 0, 0, ⟨[], []⟩⟩ = false ∧
     callEq exSig ⟨0, 0, 0, ⟨[], [(['z'], .int 1)]⟩⟩ ⟨0, 0, 0, ⟨[], [(['z'], .int 1)]⟩⟩ = true := by decide
+/-- namesakes: `docs.build` (id 0) and `www.build` (id 1) are different tasks with different bodies
+    (different `cls`) and equal (empty) arguments: both run, also as pre-tasks of a third task -/
+example : dedupe (fun _ => .plain []) [⟨0, 0, 5, noArgs⟩, ⟨1, 1, 6, noArgs⟩, ⟨0, 0, 5, noArgs⟩] =
+    [⟨0, 0, 5, noArgs⟩, ⟨1, 1, 6, noArgs⟩] := by decide
+example : (execute (fun _ => .plain []) true none
+    [(.mk 2 2 2 [(.mk 0 0 5 [] [], noArgs), (.mk 1 1 6 [] [], noArgs)] [], [])]).1.map Occ.id = [0, 1, 2] := by decide
+/-- `def stop(c, x, *rest, k=0, **kw)`: calls that differ only in a later extra positional, in the
+    keyword-only value or in a `**kw` entry are different invocations; equal ones are one -/
+def exVarSig : Nat → Sig := fun _ => ⟨[⟨['x'], none⟩], [⟨['k'], some (.int 0)⟩], true, true⟩
+def exWeb : AVal := .str ['w']
+def exDb : AVal := .str ['d']
+example : dedupe exVarSig
+    [⟨0, 0, 0, ⟨[exWeb], []⟩⟩, ⟨0, 0, 0, ⟨[exWeb, exDb], []⟩⟩, ⟨0, 0, 0, ⟨[exWeb, exDb, exDb], []⟩⟩,
+     ⟨0, 0, 0, ⟨[exWeb], [(['k'], .int 1)]⟩⟩, ⟨0, 0, 0, ⟨[exWeb], [(['z'], .int 1)]⟩⟩,
+     ⟨0, 0, 0, ⟨[], [(['x'], exWeb), (['k'], .int 0)]⟩⟩, ⟨0, 0, 0, ⟨[exWeb, exDb], []⟩⟩] =
+    [⟨0, 0, 0, ⟨[exWeb], []⟩⟩, ⟨0, 0, 0, ⟨[exWeb, exDb], []⟩⟩, ⟨0, 0, 0, ⟨[exWeb, exDb, exDb], []⟩⟩,
+     ⟨0, 0, 0, ⟨[exWeb], [(['k'], .int 1)]⟩⟩, ⟨0, 0, 0, ⟨[exWeb], [(['z'], .int 1)]⟩⟩] := by decide
+example : wellCalled (exVarSig 0) ⟨[exWeb, exDb], [(['z'], .int 1)]⟩ = true ∧
+    wellCalled (exVarSig 0) ⟨[exWeb], [(['x'], exDb)]⟩ = false ∧
+    wellCalled (.plain [⟨['x'], none⟩]) ⟨[exWeb, exDb], []⟩ = false := by decide
 /-- the hypotheses of `effective_args_dedupe` are satisfiable by a list with real duplicates under
     different spellings -/
 example :
@@ -312,7 +367,7 @@ example :
     let sig : Nat → List Param := fun _ => [⟨['x'], some (.int 1)⟩]
     let l : List Occ := [⟨0, 0, 0, ⟨[], [(['x'], .int 1)]⟩⟩, ⟨0, 0, 0, ⟨[], [(['x'], .int 2)]⟩⟩, ⟨0, 0, 0, ⟨[], [(['x'], .int 1)]⟩⟩]
     (∀ c ∈ l, ∀ d ∈ l, c.id = d.id → sameSpelling c d = true) ∧ (dedupePinned l).length = 2 ∧
-    dedupePinned l = dedupeBy (effEq sig) l := by decide
+    dedupePinned l = dedupeBy (effEqPlain sig) l := by decide
 example : WellCalled [⟨['x'], some (.int 1)⟩] ⟨[], [(['x'], .int 1)]⟩ :=
   ⟨by simp, by intro k hk; simp [keys] at hk; exact ⟨0, by simp, by simp [hk]⟩⟩
 
